@@ -475,6 +475,143 @@ def corr_list(ctx, escalate):
     ctx.oblige("corr:ListGenerator(%d histories)" % len(exprs), bad == 0, "%d disagreements" % bad)
 
 
+# ------------------------------------------------------------------ correspondence E: the energy source
+class CountingSource:
+    """tabulated spectrum replay: the k-th call returns table[k]"""
+    def __init__(self, base):
+        self.base, self.n = base, 0
+
+    def __call__(self):
+        self.n += 1
+        return self.base + (self.n - 1)
+
+
+def make_source(kind, base):
+    """(callable, position()) for a stateful energy source producing base, base+1, base+2, ..."""
+    if kind == "counter":
+        src = CountingSource(base)
+        return src, (lambda: src.n)
+    if kind == "iterator":
+        state = {"n": 0}
+
+        def gen():
+            while True:
+                state["n"] += 1
+                yield base + (state["n"] - 1)
+        it = gen()
+        return it.__next__, (lambda: state["n"])
+    # closure with its own RNG and bookkeeping (a sampler drawing from a private stream)
+    import random as _random
+    priv = _random.Random(12345)
+    state = {"n": 0}
+
+    def sampler():
+        priv.random()
+        state["n"] += 1
+        return base + (state["n"] - 1)
+    return sampler, (lambda: state["n"])
+
+
+def corr_energy(ctx, escalate):
+    """create_event / get_energy() / count assignments with a stateful energy source, shadow on and off,
+    both volumes: the k-th value the source produces goes to the k-th throw (rejected ones included), the
+    source is called once per throw and not at construction.  Judged directly (independent bookkeeping in
+    the harness) and against g_run (vm_compute), exactly."""
+    g = gmod()
+    rng = ctx.rng
+    n = ctx.n(60, 1200) * (3 if escalate else 1)
+    base = 1.0e9
+    exprs, expect, meta = [], [], []
+    for i in range(n):
+        shadow = rng.random() < 0.6
+        cyl = rng.random() < 0.5
+        kind = rng.choice(["counter", "iterator", "sampler"])
+        src, position = make_source(kind, base)
+        lint = 10 ** rng.uniform(8.0, 9.5)
+        StubInteraction.length = lint
+        earth = StubEarth(lambda e, d, lint=lint: lint * (0.02 + 2.5 * abs(d[2])))
+        c0 = rng.choice([0, 0, 7, 1000])
+        if cyl:
+            gen = g.CylindricalGenerator(1000.0, 1500.0, src, shadow=shadow, interaction_model=StubInteraction, earth_model=earth)
+        else:
+            gen = g.RectangularGenerator(2000.0, 1000.0, 1500.0, src, shadow=shadow, interaction_model=StubInteraction, earth_model=earth)
+        hist, outs, ops, want = [], [], [], []
+        what = None
+        if position() != 0:
+            what = "the energy source was called %d time(s) during construction" % position()
+        gen.count = c0
+        count_ref, pos_ref = c0, position()
+        nthrows = [0]
+        orig = gen.get_weights
+
+        def spy(particle, orig=orig, nthrows=nthrows):
+            nthrows[0] += 1
+            return orig(particle)
+        gen.get_weights = spy
+        us = [rng.random() for _ in range(8 * 60)]
+        try:
+            with np.errstate(all="ignore"):
+                with Script(us) as sc:
+                    for _ in range(rng.randint(1, 6)):
+                        k = rng.random()
+                        if k < 0.65:
+                            nthrows[0] = 0
+                            p = gen.create_event().roots[0]
+                            r = nthrows[0] - 1
+                            hist.append(["create_event", r])
+                            ops.append("Throws %d" % r)
+                            outs.append("GEvent %s %s" % (common.coq_lit(int(round(float(p.energy) - base))), common.coq_lit(int(gen.count))))
+                            # independent bookkeeping: the accepted throw made the (pos_ref + r + 1)-th call
+                            want.append("GEvent %s %s" % (common.coq_lit(pos_ref + r), common.coq_lit(count_ref + r + 1)))
+                            pos_ref += r + 1
+                            count_ref += r + 1
+                        elif k < 0.88:
+                            e = gen.get_energy()
+                            hist.append(["get_energy"])
+                            ops.append("DirectEnergy")
+                            outs.append("GEnergy %s" % common.coq_lit(int(round(float(e) - base))))
+                            want.append("GEnergy %s" % common.coq_lit(pos_ref))
+                            pos_ref += 1
+                        else:
+                            c = rng.choice([0, 3, 50])
+                            gen.count = c
+                            count_ref = c
+                            hist.append(["count=", c])
+                            ops.append("SetCountG %d" % c)
+                            outs.append("GDone")
+                            want.append("GDone")
+                    used = sc.pos
+        except (IndexError, RecursionError):
+            continue
+        except Exception as e:
+            what = "raised %r" % (e,)
+            used = 0
+        rep = {"kind": "energy", "source": kind, "shadow": shadow, "cyl": cyl, "count0": c0, "history": hist, "l_int": lint, "us": us[:used]}
+        ctx.case(key=("energy", kind, shadow, cyl, c0, json.dumps(hist), tuple(us[:8])), nontrivial=len(hist) > 1 or shadow, sample={"history": hist, "outputs": outs})
+        if what is None and outs != want:
+            j = next(i_ for i_, (a, b) in enumerate(zip(outs, want)) if a != b)
+            what = "step %d (%s) gave %s but the %s value of the source belongs there: expected %s" % (j, hist[j], outs[j], "next", want[j])
+        if what is None and position() != pos_ref:
+            what = "the source was called %d times for %d throws + direct calls" % (position(), pos_ref)
+        if what:
+            ctx.fail("energy-source:%s:%s:%s:%s:%r" % (kind, shadow, cyl, json.dumps(hist), us[:8]),
+                     "%s with a stateful energy source (%s, values E0, E0+1, ...; shadow=%s; count preset %d) and the history %s (create_event with the number of rejected throws): %s" % (
+                         type(gen).__name__, kind, shadow, c0, json.dumps(hist), what), rep)
+        exprs.append("(let r := g_run (g_init %s) [%s] in (snd r, g_pos (fst r), g_count (fst r)))" % (common.coq_lit(c0), "; ".join(ops)))
+        expect.append("([%s], %s, %s)" % ("; ".join(outs), common.coq_lit(position()), common.coq_lit(int(gen.count))))
+        meta.append(rep)
+    StubInteraction.length = 1e9
+    imports = "From Coq Require Import ZArith List.\nFrom PyrexModel Require Import GeneratorModel.\nImport ListNotations.\nOpen Scope Z_scope.\n"
+    res = ctx.coq_eval_exprs(imports, exprs)
+    bad = 0
+    for r, e, m in zip(res, expect, meta):
+        if common.norm_coq(r) != common.norm_coq(e):
+            bad += 1
+            ctx.fail("energy-source-model:%s:%s:%s:%r" % (m["source"], m["shadow"], json.dumps(m["history"]), m["us"][:8]),
+                     "energy-source history %s: implementation (outputs, source position, count) %s, model %s" % (json.dumps(m["history"]), e, r), m)
+    ctx.oblige("corr:energy_source(%d histories)" % len(exprs), bad == 0, "%d disagreements" % bad)
+
+
 # ------------------------------------------------------------------ probes on the implementation
 def slab_oracle(cyl, dims, v, d):
     """Independent entry/exit parameters (s_in < 0 < s_out) of the line v + s d through the volume."""
@@ -895,7 +1032,7 @@ def run(ctx):
     changed = [k for k, v in side["pins"].items() if recorded.get(k) != v]
     ctx.extra["pins"] = {"current": side["pins"], "changed_since_validation": changed}
     ok = ctx.coq_build("C13", timeout=240)
-    todo = [("exit_points", corr_exit), ("create_event", corr_create), ("ListGenerator", corr_list)]
+    todo = [("exit_points", corr_exit), ("create_event", corr_create), ("ListGenerator", corr_list), ("energy_source", corr_energy)]
     if ok:
         todo.insert(0, ("draws", corr_draws))
     else:
@@ -938,6 +1075,9 @@ def replay(ctx, obj):
         with Script(obj["us"] + [0.5] * 64) as sc:
             ev = gen.create_event()
             print("implementation: variates used", sc.pos, "count", gen.count, "weights", ev.roots[0].survival_weight, ev.roots[0].interaction_weight)
+    elif k == "energy":
+        print("re-run: construct the generator with a counting energy source (k-th call returns E0 + k), shadow=%s, apply obj['history'] "
+              "on the scripted stream obj['us']; the event energies / get_energy() values must be E0 + (number of source calls made before)" % obj.get("shadow"))
     elif k == "reconfigure":
         print("re-run with: construct the initial generator, apply obj['assignments'] in order, then create_event on the scripted stream obj['us']; "
               "compare with a fresh generator built from obj['final']")
